@@ -27,6 +27,13 @@ var c03Errors = []error{
 	linux.EPERM, linux.ENOENT, linux.EIO, linux.EACCES, linux.EEXIST, linux.ENOTDIR, linux.EISDIR, linux.EINVAL, linux.ENOSPC, linux.EROFS,
 	linux.ENOTEMPTY, linux.ENODATA, linux.ENAMETOOLONG, linux.ELOOP, linux.EAGAIN, linux.EBUSY, linux.ENOSYS, linux.Errno(122), linux.Errno(1), linux.Errno(133),
 	syscall.EPERM, syscall.ENOENT, syscall.EACCES, syscall.EEXIST, syscall.ENOTEMPTY, syscall.EINVAL, syscall.EMFILE, syscall.EXDEV, syscall.ESTALE,
+	// errnos with a second meaning in Go: syscall.Errno has Timeout() and
+	// Temporary() methods that answer true for these
+	syscall.EAGAIN, syscall.EWOULDBLOCK, syscall.ETIMEDOUT, syscall.EINTR, syscall.ENFILE,
+	&os.PathError{Op: "read", Path: "/x", Err: syscall.EAGAIN},
+	&os.SyscallError{Syscall: "read", Err: syscall.ETIMEDOUT},
+	fmt.Errorf("wrapped: %w", syscall.EINTR),
+	os.ErrDeadlineExceeded,
 	os.ErrNotExist, os.ErrExist, os.ErrPermission, os.ErrInvalid,
 	&os.PathError{Op: "open", Path: "/x", Err: syscall.EPERM},
 	&os.PathError{Op: "rmdir", Path: "/x", Err: syscall.ENOTEMPTY},
